@@ -23,11 +23,11 @@ TEXT = {
             "§4 C07", "full"),
     "C08": ("Structural theorems (constructor stores, scalar ops keep the unit and are literally the amount type's product/quotient) for every arithmetic, unit type and amount; tie: bit-exact correspondence on every unit of every type incl. NaN/inf/-0/subnormals and decimal boundary coefficients.",
             "§4 C08", "full"),
-    "C09": ("Theorems for every accepted declaration: iteration is a sorted, stable permutation of the declared units with the reference unit first among scale-one units; lookup = List.find? laws; constants reach their units; tie: registry dump + lookups on all symbols/scales incl. near misses.",
+    "C09": ("Theorems for every accepted declaration: iteration is a sorted, stable permutation of the declared units with the reference unit first among scale-one units; lookup = List.find? laws; constants reach their units; tie: registry dump + lookups on all symbols/scales incl. near misses. Generated tables satisfy the hypotheses (Bridge); lookups that must return the FIRST match are also run after a lookup in another type that lands on the later duplicate's position.",
             "§4 C09", "full"),
-    "C10": ("Theorems: equality iff same unit and equal amounts, different units unordered, + - / of different units is the documented panic, same-unit reduction to the amount type, single-unit types; tie: all ordered unit pairs of Temperature and synthetic no-ref/single-unit types.",
+    "C10": ("Theorems: equality iff same unit and equal amounts, different units unordered, + - / of different units is the documented panic, same-unit reduction to the amount type, single-unit types; tie: all ordered unit pairs of Temperature and synthetic no-ref/single-unit types. Every comparison line also compares a value with itself (one object).",
             "§4 C10", "full"),
-    "C11": ("Theorems on the token-level model of the macro front end: every well-formed definition expands, faithfully (names, symbols, prefixes, literal scales, path), and permuting unit attributes only permutes equal-scale units; tie: generated crates compiled with the real macro and dumped.",
+    "C11": ("Theorems on the token-level model of the macro front end: every well-formed definition expands, faithfully (names, symbols, prefixes, literal scales, path), and permuting unit attributes only permutes equal-scale units; tie: generated crates compiled with the real macro and dumped. The macro's own code (entry point included) runs as a library on 1 300 generated definitions per run; parsed definition, generated accessor arms, constants, variants, impls, stray items are compared with the model.",
             "§4 C11", "partial: syn / rustc are modelled"),
     "C12": ("One theorem per defect class: every raw definition having the defect is rejected by the model of the macro at the offending site; derived definitions need reference units (HasRefUnit bounds); tie: cargo check verdict and primary span of generated malformed programs and of tests/ui.",
             "§4 C12", "partial: syn / rustc are modelled"),
@@ -41,7 +41,7 @@ TEXT = {
             "§4 C16", "full"),
     "C17": ("Theorems: de(ser(q)) = q and injectivity on the serde data-model tree for both amount types (decimal via Display/FromStr round trip); tie: serde_json value tree and text on all units x adversarial amounts. The binary64 JSON number text is computed by the model (ryu layout and tie rule) and compared with serde_json.",
             "§4 C17", "partial: serde_derive / serde_json are modelled"),
-    "C18": ("Theorems: no modelled operation returns a panic in f64; none in decimal inside the stated magnitude domain; otherwise only the documented unit-mismatch panic; tie: panic kinds of every executed op compared with the model.",
+    "C18": ("Theorems: no modelled operation returns a panic in f64; none in decimal inside the stated magnitude domain; otherwise only the documented unit-mismatch panic; tie: panic kinds of every executed op compared with the model. End-to-end for every macro-generated table and the whole catalogue (C18Generated); formatting of quantities, units and rates incl. very long precisions and re-entrant sinks in the correspondence.",
             "§4 C18", "full for modelled ops"),
     "C19": ("Theorems on the regenerated feature graph: import-closedness of the enabled module set for ALL 2^14 feature subsets, exactly one AmountT definition per configuration; tie: cargo check of the configurations and corpus equality across them. A regenerated inventory of every conditional-compilation site: code_depends_on_fpdec_only and results_feature_independent (all pairs of feature sets selecting the same amount type compile the same code).",
             "§4 C19", "partial: cargo / rustc are modelled"),
